@@ -135,6 +135,10 @@ class TextureVisuals(Visuals):
             material=self.material.copy(),
             face_materials=copy.copy(self.face_materials),
         )
+        # keep the other per-vertex channels, i.e. a second set of UV's
+        for key, value in self.vertex_attributes.items():
+            if key != "uv":
+                copied.vertex_attributes[key] = copy.deepcopy(np.asarray(value))
 
         return copied
 
